@@ -120,6 +120,9 @@ func (fc *FnCtx) call(st *State, e *ast.CallExpr) []Term {
 		}
 		results = fc.unknownCall(st, e, nil, sig, ctext)
 	}
+	for _, r := range results {
+		fc.ownResult(st, r)
+	}
 	fc.runAnchors(st, "aftercall", ctext, ord, e.Pos(), results)
 	return results
 }
@@ -213,6 +216,9 @@ func (fc *FnCtx) havocForCall(st *State, fn *types.Func, name string) []string {
 		nv.T = old.T
 		st.vars[k] = nv
 		out = append(out, fc.keyName(k))
+		if hk, ok := k.(heapKey); ok && hk.Kind == "F" {
+			fc.preserveOwned(st, hk, old, nv)
+		}
 	}
 	// allocation mark only grows
 	cur := fc.get(st, allocKey, SInt, nil)
